@@ -53,7 +53,7 @@ check(
     "C01",
     "model_checking",
     "Explicit-state BFS over histories of real public operations (constructors, roots, ratio splitting, every renderer, parsing, conversion, (de)serialization, quantity-level twins) from a restored baseline, checking after every transition that EVERY interned unit's dimension equals the group-model product of its base factors' dimensions; plus a one-step sweep over a unit box x all construction orders x all observers, and a two-process leg (dump here, load in a fresh interpreter). All histories up to the stated depth are covered, not sampled.",
-    "Bounds: depth 2 with the full event menu and depth 3 with the core menu (quick: 4 seeds, thorough: 6 seeds); |exponent|<=4, <=4 factors; base units' own dimensions trusted; CPython 3.12 single-threaded. snapshot/restore is validated by re-running depth-1 and sampled deepest-level histories in brand-new interpreters.",
+    "Bounds: depth 2 with the full event menu and depth 3 with the core menu (quick: 4 seeds, thorough: 6 seeds); |exponent|<=4, <=4 factors; base units' own dimensions trusted; CPython 3.12 single-threaded. snapshot/restore is validated by re-running depth-1 and sampled deepest-level histories in brand-new interpreters. The event menu includes defining a new fundamental dimension; a unit's dimension must be THE interned object for its exponents, as wide as Number.",
     "explicit-state BFS over operation histories on the real library, whole-intern-table invariant",
     "HistoryExplorer",
     "DESIGN.md §4 C01",
@@ -188,7 +188,7 @@ check(
     "C16",
     "model_checking",
     "Complete product exploration of the shipped LALR automaton (deserialised from _parser.DATA/MEMO) against the automaton generated now from measured.lark: terminals, ignore set, rules and options, every reachable state pair x every symbol; an action-commuting bijection is an isomorphism, hence equal language and trees for ALL token sequences. Conformance: all token sequences up to length 6/8 and all character strings up to length 4/5 through both runtimes.",
-    "Reference generator is Lark 1.3.1 (file was produced by 1.1.2): equality up to state renaming.",
+    "Reference generator is Lark 1.3.1 (file was produced by 1.1.2): equality up to state renaming. The differential runs use long-lived parser objects as the library does (the first violation of a batch carries the batch history); the wide alphabet holds every member of WS and nine other blanks; an exception other than the parser's own, or a result that is not a tree, is a reported difference.",
     "explicit-state product of two LALR automata + bounded all-strings differential conformance",
     "LalrProduct",
     "DESIGN.md §4 C16",
@@ -224,7 +224,7 @@ check(
     "C20",
     "model_checking",
     "All interleavings, at line granularity, of 2-3 real threads constructing the same fresh dimension / prefix / unit / logarithmic unit, up to a preemption bound (iterative context bounding); every execution runs to completion and is checked for one object, one registry entry.",
-    "Line granularity under GIL semantics; CPython 3.12; preemption bound as in the evidence.",
+    "Line granularity under GIL semantics; CPython 3.12; preemption bound as in the evidence. Eleven scenarios, including a rejected definition racing a plain evaluation of the same unit and two threads creating two different dimensions; registries are walked whatever their nesting and re-bound if the library replaces them.",
     "stateless schedule exploration with preemption bounding (settrace cooperative scheduler) on real threads",
     "ScheduleExplorer",
     "DESIGN.md §4 C20",
